@@ -179,6 +179,10 @@ func (a *app) Query(req abci.RequestQuery) abci.ResponseQuery {
 	return abci.ResponseQuery{Code: 0, Key: req.Data, Value: v, Height: h, Log: "found", Info: "q", Index: 7, ProofOps: &tmcrypto.ProofOps{Ops: ops}}
 }
 
+// a stored value that happens to be a Merkle leaf hash: leafHash(kv("", "A")) — what a keyless
+// ValueOp computes for the claimed value "A"
+var hashLikeValue = merkle.HashFromByteSlices([][]byte{kvLeafBytes(nil, []byte("A"))})
+
 // ---- chain ----
 
 type chainSpec struct {
@@ -256,7 +260,7 @@ func buildChain(spec chainSpec) *chain {
 	cp := types.DefaultConsensusParams()
 	cp.Block.MaxBytes = int64(2000000 + r.Intn(5))
 	cp.Block.MaxGas = int64(r.Intn(3)) - 1
-	c.app = &app{cur: snapshot{"acc": {"genesis": []byte("g"), "void": []byte{}}}, hist: map[int64]snapshot{}, events: spec.events, paramsAt: spec.paramAt}
+	c.app = &app{cur: snapshot{"acc": {"genesis": []byte("g"), "void": []byte{}, "root": hashLikeValue}}, hist: map[int64]snapshot{}, events: spec.events, paramsAt: spec.paramAt}
 	root0, _, _ := appRoot(c.app.cur)
 	gen := &types.GenesisDoc{GenesisTime: baseTime, ChainID: c.chainID, InitialHeight: 1, ConsensusParams: cp, Validators: gvals, AppHash: root0}
 	if err := gen.ValidateAndComplete(); err != nil {
